@@ -23,8 +23,8 @@ UntouchedAt(x) == x.untouched
 (* C07: crash-free quiescence => exactly one complete local report per week over exactly that week's files, files gone *)
 OneLocalReportAt(x) == (x.quiet /\ x.nokill) =>
      \A w \in Weeks(x) : /\ x.localr[w].st = "file" /\ x.localr[w].complete
-                         /\ ToSet(x.localr[w].files) = ToSet(x.filesof[w])
-                         /\ ToSet(x.filesof[w]) \cap ToSet(x.count) = {}
+                         /\ ToSet(x.early[w]) \subseteq ToSet(x.localr[w].files) /\ ToSet(x.localr[w].files) \subseteq ToSet(x.filesof[w])
+                         /\ ToSet(x.early[w]) \cap ToSet(x.count) = {}
 (* C07: a count file disappears only when a report for its week exists *)
 DeleteOnlyAfterReportAt(i) == (i > 1 /\ Trace[i].run = Trace[i - 1].run) =>
      \A w \in Weeks(Trace[i]) : \A f \in ToSet(Trace[i].filesof[w]) :
@@ -34,7 +34,28 @@ DeleteOnlyAfterReportAt(i) == (i > 1 /\ Trace[i].run = Trace[i - 1].run) =>
 ReportStableAt(i) == (i > 1 /\ Trace[i].run = Trace[i - 1].run) =>
      \A w \in Weeks(Trace[i]) : (Trace[i - 1].localr[w].st = "file" /\ Trace[i - 1].localr[w].complete) => Trace[i].localr[w] = Trace[i - 1].localr[w]
 
-Bad == {<<i, "OneBodyPerWeek">> : i \in {j \in 1..Len(Trace) : ~OneBodyPerWeekAt(Trace[j])}}
+(* C08: what the uploader does with the reply.  When an uploader gives the    *)
+(* lock of a week back, the last request it made while holding it decides:    *)
+(* server error / no answer => the report is still in place; client error =>  *)
+(* the report is gone and the week is not marked uploaded; success => marked. *)
+LockStart(i, w) == CHOOSE k \in Trace[i].first..(i - 1) : ~Trace[k].lock[w] /\ \A m \in (k + 1)..(i - 1) : Trace[m].lock[w]
+ReplyHandledAt(i) == (i > 1 /\ Trace[i].run = Trace[i - 1].run /\ Trace[i].t # "kill" /\ Trace[i].t # "init") =>
+     \A w \in Weeks(Trace[i]) :
+        (Trace[i - 1].lock[w] /\ ~Trace[i].lock[w] /\ \E k \in Trace[i].first..(i - 1) : ~Trace[k].lock[w]) =>
+           LET k == LockStart(i, w)
+               mine == {n \in (Len(Trace[k].posts) + 1)..Len(Trace[i].posts) : ToString(Trace[i].posts[n].w) = w /\ Trace[i].posts[n].by = Trace[i].t}
+           IN mine # {} =>
+                LET last == Trace[i].posts[CHOOSE n \in mine : \A m \in mine : m <= n] IN
+                  /\ last.reply \in {"5xx", "none"} => Trace[i].ready[w].st = Trace[k].ready[w].st   \* left in place (only its creator may still be writing it)
+                  /\ last.reply = "4xx" => (Trace[i].ready[w].st = "absent" /\ Trace[i].uploaded[w] = Trace[k].uploaded[w])
+                  /\ last.reply = "200" => Trace[i].uploaded[w].st = "file"
+
+(* C07: the report made ready for upload is the week's one report, never a second or different one *)
+ReadyMatchesLocalAt(x) == \A w \in Weeks(x) : (x.localr[w].st = "file" /\ x.localr[w].complete /\ x.ready[w].st = "file" /\ x.ready[w].complete)
+                             => ToSet(x.ready[w].files) = ToSet(x.localr[w].files)
+Bad == {<<i, "ReadyMatchesLocal">> : i \in {j \in 1..Len(Trace) : ~ReadyMatchesLocalAt(Trace[j])}} \cup
+       {<<i, "ReplyHandled">> : i \in {j \in 1..Len(Trace) : ~ReplyHandledAt(j)}} \cup
+       {<<i, "OneBodyPerWeek">> : i \in {j \in 1..Len(Trace) : ~OneBodyPerWeekAt(Trace[j])}}
        \cup {<<i, "NoResendAfterRecorded">> : i \in {j \in 1..Len(Trace) : ~NoResendAt(Trace[j])}}
        \cup {<<i, "MarkerOnlyAfterAck">> : i \in {j \in 1..Len(Trace) : ~MarkerOnlyAfterAckAt(Trace[j])}}
        \cup {<<i, "Untouched">> : i \in {j \in 1..Len(Trace) : ~UntouchedAt(Trace[j])}}
@@ -43,5 +64,5 @@ Bad == {<<i, "OneBodyPerWeek">> : i \in {j \in 1..Len(Trace) : ~OneBodyPerWeekAt
        \cup {<<i, "ReportStable">> : i \in {j \in 1..Len(Trace) : ~ReportStableAt(j)}}
 ASSUME PrintT(<<"C08BAD", Bad>>)
 AllGood == /\ OneBodyPerWeekAt(Trace[l]) /\ NoResendAt(Trace[l]) /\ MarkerOnlyAfterAckAt(Trace[l]) /\ UntouchedAt(Trace[l])
-           /\ OneLocalReportAt(Trace[l]) /\ DeleteOnlyAfterReportAt(l) /\ ReportStableAt(l)
+           /\ OneLocalReportAt(Trace[l]) /\ DeleteOnlyAfterReportAt(l) /\ ReportStableAt(l) /\ ReplyHandledAt(l) /\ ReadyMatchesLocalAt(Trace[l])
 =============================================================================
